@@ -441,21 +441,43 @@ def scanExts : List (List Nat) → Nat × Nat → Nat → Except SetVersErr (Nat
     let mm := findVersions e
     if mm.1 == 0 && mm.2 == 0 then .error .invalidVersions else scanExts rest mm (n + 1)
 
-/-- `SetTLSVers(min, max, specExtensions)`: the (min, max) it settles on. `exts` = the `Versions`
-of the spec's SupportedVersionsExtensions, in order. -/
-def setTLSVers (mn mx : Nat) (exts : List (List Nat)) : Except SetVersErr (Nat × Nat) := do
-  let (mn, mx) ←
-    if mn == 0 && mx == 0 then
-      match scanExts exts (mn, mx) 0 with
-      | .error e => .error e
-      | .ok (a, c, n) =>
-        if n == 0 then pure (tls10, tls12)
-        else if n == 1 then pure (a, c)
-        else .error .multipleExts
-    else pure (mn, mx)
+/-- first half of `SetTLSVers`: explicit values win; else the spec's SupportedVersionsExtension; else 1.0–1.2. -/
+def chooseVers (mn mx : Nat) (exts : List (List Nat)) : Except SetVersErr (Nat × Nat) :=
+  if mn == 0 && mx == 0 then
+    match scanExts exts (mn, mx) 0 with
+    | .error e => .error e
+    | .ok (a, c, n) =>
+      if n == 0 then .ok (tls10, tls12)
+      else if n == 1 then .ok (a, c)
+      else .error .multipleExts
+  else .ok (mn, mx)
+
+/-- second half: both bounds must be TLS 1.0 … 1.3. -/
+def validateVers (mn mx : Nat) : Except SetVersErr (Nat × Nat) :=
   if mn < tls10 || mn > tls13 then .error .badMin
   else if mx < tls10 || mx > tls13 then .error .badMax
-  else pure (mn, mx)
+  else .ok (mn, mx)
+
+theorem validateVers_ok {mn mx a b : Nat} (h : validateVers mn mx = .ok (a, b)) :
+    a = mn ∧ b = mx ∧ tls10 ≤ a ∧ a ≤ tls13 ∧ tls10 ≤ b ∧ b ≤ tls13 := by
+  unfold validateVers at h
+  split at h
+  · cases h
+  · split at h
+    · cases h
+    · rename_i h1 h2
+      injection h with h
+      injection h with ha hb
+      subst ha; subst hb
+      simp only [Bool.or_eq_true, decide_eq_true_eq, not_or, Nat.not_lt] at h1 h2
+      exact ⟨rfl, rfl, h1.1, h1.2, h2.1, h2.2⟩
+
+/-- `SetTLSVers(min, max, specExtensions)`: the (min, max) it settles on. `exts` = the `Versions`
+of the spec's SupportedVersionsExtensions, in order. -/
+def setTLSVers (mn mx : Nat) (exts : List (List Nat)) : Except SetVersErr (Nat × Nat) :=
+  match chooseVers mn mx exts with
+  | .error e => .error e
+  | .ok p => validateVers p.1 p.2
 
 /-- `makeSupportedVersions(min, max)` in uint16 arithmetic: length and entries. -/
 def makeSupportedVersionsLen (mn mx : Nat) : Nat := (mx + 65536 - mn + 1) % 65536
